@@ -29,7 +29,7 @@ RULE = ('corpus = ~170 unique inputs (valid and invalid statements x parse_sql i
 ASSUMPTIONS = ['golden = result in a fresh process, PYTHONHASHSEED=0, fresh argument objects, fixed order (a shuffled-order run must reproduce it)',
                'interleavings are sampled (yield injection at line granularity), not enumerated',
                'a catalog mutation that does not change any later result (e.g. a default key added once) is not a violation']
-BUDGET = {'quick': (8, 120), 'thorough': (16, 900)}
+BUDGET = {'quick': (8, 360), 'thorough': (16, 2700)}
 NTHREADS = 8
 
 
